@@ -4,6 +4,8 @@
    printer producing exactly the canonical line the C++ driver prints for the same command.
    Everything is computed inside Coq (and extracted); the OCaml glue only does I/O and ICU. *)
 From Upa Require Import Base.Prelude Spec.CodePoints Spec.Utf Spec.Percent Spec.Ip Spec.UrlEncoded Spec.Url.
+(* the model of the hidden representation (offsets, flags, segment counter) of a url object: C05 *)
+From Upa Require Import Impl.Repr.
 From Coq Require Import String.
 From Coq Require Import List.
 Import ListNotations.
@@ -191,7 +193,10 @@ Definition state_str (s : slot) : str :=
   match s_url s with
   | None => lit "valid=0"
   | Some u =>
-      lit "valid=1 " ++ obs u ++ lit " inv=ok fresh=" ++ bit (is_fresh u) ++
+      (* repr: the hidden state a fresh parse of the href has (Impl/Repr.v); the driver prints
+         part_end_, flags_ and path_segment_count_ of the real object in the same format *)
+      lit "valid=1 " ++ obs u ++ lit " inv=ok repr=" ++ repr_str (repr_of u) ++
+      lit " fresh=" ++ bit (is_fresh u) ++
       (if s_has_sp s then lit " sp=" ++ pairs_or_dash (s_sp s) ++ lit " spptr=1" else [])
   end.
 
